@@ -40,6 +40,9 @@ def ops_for(cls):
         ops.append(("merge_faces", lambda o: o.merge_faces()))
     if cls != "ConvexSpheropolygon" or True:
         ops.append(("to_hoomd", lambda o: o.to_hoomd()))
+    # reading everything (properties, structure, containment probes) is not a mutation - but it fills whatever a query memoises,
+    # so that a later mutation which forgets to invalidate a memo shows
+    ops.append(("read:observables", lambda o: full_observe(o)))
     # the core of a spheropolytope is public (.polyhedron / .polygon): resizing it is a mutation of the spheropolytope as well
     if cls == "ConvexSpheropolyhedron":
         ops.append(("core:scale:volume", lambda o: setattr(o.polyhedron, "volume", 2.0 * float(o.polyhedron.volume))))
@@ -56,6 +59,12 @@ def base(cls):
 
     if cls == "Polygon/cw":      # a Polygon listed clockwise about an explicit normal (signed_area < 0)
         return Z.make("Polygon", opposing=True)[0]
+    if cls == "Polyhedron/noflag":
+        # quadrilateral faces, faces_are_convex left at its default (False): sort_faces / merge_faces are documented to raise ValueError -
+        # and must then leave the polyhedron exactly as it was
+        box = np.array([[0, 0, 0], [2, 0, 0], [2, 1.5, 0], [0, 1.5, 0], [0.25, 0, 1], [2.25, 0, 1], [2.25, 1.5, 1], [0.25, 1.5, 1]], float) + np.array([3.0, -2.0, 5.0])
+        cb = coxeter.shapes.ConvexPolyhedron(box)
+        return coxeter.shapes.Polyhedron(np.array(cb.vertices), [np.array(f) for f in cb.faces])
 
     if cls == "Polyhedron":
         # triangulated faces so that merge_faces has something to do, convex faces allowed
@@ -124,6 +133,12 @@ def probes(obj):
     V = np.array(obj.vertices, float)
     c = V.mean(0)
     P = [c, c + 0.6 * (V[0] - c), c + 1.7 * (V[1] - c), c + 0.3 * (V[2] - c) + 0.2 * (V[0] - c), V.max(0) + 1.0]
+    if type(obj).__name__ == "ConvexSpheropolyhedron":
+        # points in the rounded layer above the interior of a face (inside the shape, outside the core) and just beyond it
+        core = obj.polyhedron
+        for f, n in list(zip(core.faces, np.asarray(core.normals, float)))[:3]:
+            m = V[list(map(int, f))].mean(0)
+            P += [m + 0.5 * float(obj.radius) * n, m + 1.5 * float(obj.radius) * n]
     return np.array(P)
 
 
@@ -181,7 +196,7 @@ def run(chk):
                          "six vertex-based classes, plus %d random walks of length %d per class; every prefix is judged; non-trivial = history of length >= 2 "
                          "or containing a reorientation/merge/refused op" % (depth, nwalk, lwalk))
     chk.notes["exhaustive"] = True
-    for cls in list(Z.VERTEX_CLASSES) + ["Polygon/cw"]:
+    for cls in list(Z.VERTEX_CLASSES) + ["Polygon/cw", "Polyhedron/noflag"]:
         ops = ops_for(cls.split("/")[0])
         seqs = []
         for d in range(1, depth + 1):
@@ -200,7 +215,7 @@ def run(chk):
                 hist.append(name)
                 snap = Z.state_snapshot(obj)
                 st, _ = C.excname(fn, obj)
-                if name.startswith("bad:"):
+                if name.startswith("bad:") or (cls == "Polyhedron/noflag" and name in ("sort_faces", "merge_faces")):
                     if st != "ValueError":
                         chk.violation("bad-target-not-refused", dict(cls=cls, history=list(hist), outcome=st)); ok = False
                     same, why = Z.snapshots_equal(snap, Z.state_snapshot(obj))
